@@ -52,6 +52,22 @@ the driver, or the broker's own one with `via_inmemory`):
     through the real kicker of the task (with_task_id / with_labels / kiq).  Whatever receiver the broker holds at
     that moment executes them; the callback task the broker spawns is found by its execution tag and awaited
     (broker.wait_all() at the end).  The broker hands over bare bytes: there is nothing to acknowledge.
+  * {"kind": "listen", "kwargs": {...} | "argv": [...], "stop": {"how": "budget" | "exhausted" | "event", "after": us},
+    "pool": k}: a WORKER THAT STOPS while executions are in flight (deps11).  The real Receiver.listen(finish_event) runs on
+    the virtual-time loop (the Receiver subclass only tags executions; its keyword arguments are the case's, or what the
+    real worker command line computes from `argv`: --max-tasks-per-child, --wait-tasks-timeout, ...), over a scripted
+    broker.listen() that serves the deliveries as their runners hand them in.  The worker is told to stop - its
+    max_tasks_to_execute budget is used up by the last delivery / the broker's listen() ends after the last delivery /
+    the finish event is set `after` microseconds after the last delivery was taken up - and Receiver.runner then waits
+    for the executions in flight for at most `wait_tasks_timeout` seconds (small values: the wait expires while a
+    task function, a sync function in the thread pool, an awaiting dependency teardown, set_result ... is under way)
+    before listen() returns.  The loop RUNS ON after listen() returned (as under taskiq.api.run_receiver_task in an
+    application, or while the broker is shut down): the driver waits until every delivery's callback has ended and the
+    thread pool is idle, then one more virtual second, before the case is over.  Sync task functions run in a
+    vloop.VPool of `pool` threads and spend their `dur` as VIRTUAL time there (h_body_sync: vloop.thread_vsleep), so a
+    sync function can still be running when the wait expires.  The observation carries `stop` (how the worker stopped,
+    the log position / time at which the receiver's on_exit was called, the wait_tasks_timeout / budget the receiver
+    really held).
 The property statements do not depend on the path: the case's `propagate` / `validate` / `ack` are what was ASKED for.
 
 Strings of unusual but legal shapes ON THE WIRE (`tids` of a message plan = the task id the message carries, verbatim;
@@ -516,6 +532,37 @@ class Loop(vloop.VLoop):
         return super().run_in_executor(executor, lambda: cv.run(func, *args))
 
 
+# ---- deps11: the loop of a `listen` case (sync task functions in a vloop.VPool spend virtual time) ----------------------
+class PoolLoop(vloop.PLoop):
+    def run_in_executor(self, executor, func, *args):
+        cv = contextvars.copy_context()
+        return super().run_in_executor(executor, lambda: cv.run(func, *args))
+
+
+def ending_feed(total):
+    """the scripted broker.listen() of a `listen` case: cli_glue.FlakyFeed (put / take bookkeeping) whose listen() never
+    fails and, when `total` is given, ENDS after that many items (the broker's queue is exhausted / was closed)"""
+    import cli_glue
+
+    class EndingFeed(cli_glue.FlakyFeed):
+        async def listen(self):
+            if self.queue is None:
+                self.queue = asyncio.Queue()
+            inc = self.listens
+            self.listens += 1
+            n = 0
+            while total is None or n < total:
+                key, obj = await self.queue.get()
+                self.served[key] = inc
+                self.handed.setdefault(id(obj), []).append(key)
+                self.keep.append(obj)
+                n += 1
+                yield obj
+
+    return EndingFeed([])
+# ---- end deps11 -------------------------------------------------------------------------------------------------------
+
+
 # --------------------------------------------------------------------------- helpers called by the generated bodies
 def jsonable(v):
     if isinstance(v, Tags):
@@ -647,10 +694,29 @@ def next_pause(e):
     return ps[i % len(ps)]
 
 
-async def h_pause():
-    p = next_pause(EXEC.get())
+async def h_pause(teardown=False):
+    e = EXEC.get()
+    # deps11: `tpause` of a message plan = how long every awaiting teardown step of that execution takes (a flush / commit
+    # that takes a while); absent = the next of the plan's `pauses`, as everywhere else
+    p = R.plan(e).get("tpause") if teardown else None
+    if p is None:
+        p = next_pause(e)
     if p is not None:
         await asyncio.sleep(p / 1_000_000)
+
+
+async def h_pause_open(node, tok):
+    """deps11: the await of a dependency (or provider: node None) that is being opened.  An execution that is cancelled here
+    by whoever holds its task fails while its dependencies are resolved: logged like a scripted failure of that
+    dependency (nothing else differs from h_pause)"""
+    try:
+        await h_pause()
+    except asyncio.CancelledError:
+        e = EXEC.get()
+        if R is not None:
+            R.ev("fail", e, node, tok)
+            R.ev("raised", e, "CancelledError", "dep")
+        raise
 
 
 def h_prov(k, ctx):
@@ -738,6 +804,9 @@ def h_body_sync(t, tok, kw, ctx, vals, pv=NOPV):
         payload["pv"] = jsonable(pv)
     R.ev("task_start", e, t, payload, vals)
     apply_muts(e, "start", ctx, pv=pv)
+    for d in R.plan(e).get("dur") or []:
+        # deps11: virtual time spent inside the thread of a vloop.VPool (nothing in any other thread / pool)
+        vloop.thread_vsleep(d)
     end_scratch(e)
     apply_muts(e, "end", ctx, pv=pv)
     if pv is not NOPV:
@@ -926,11 +995,11 @@ def prov_src(k, p):
     if st == "plain":
         return head + "    return %s\n" % pick
     if st == "coro":
-        return "async " + head + "    await h_pause()\n    return %s\n" % pick
+        return "async " + head + "    await h_pause_open(None, None)\n    return %s\n" % pick
     if st == "gen":
         return head + "    yield %s\n" % pick
     if st == "agen":
-        return "async " + head + "    await h_pause()\n    yield %s\n" % pick
+        return "async " + head + "    await h_pause_open(None, None)\n    yield %s\n" % pick
     raise ValueError(st)
 
 
@@ -956,7 +1025,7 @@ def node_src(k, n):
                 "    return h_val({k}, tok)\n").format(k=k, sig=sig, cx=cx)
     if st == "coro":
         return ("async def node_{k}({sig}):\n    tok = h_enter({k}, {cx})\n    h_fail({k}, tok, 'early')\n"
-                "    await h_pause()\n    h_fail({k}, tok, 'late')\n    return h_val({k}, tok)\n").format(k=k, sig=sig, cx=cx)
+                "    await h_pause_open({k}, tok)\n    h_fail({k}, tok, 'late')\n    return h_val({k}, tok)\n").format(k=k, sig=sig, cx=cx)
     if st in ("gen", "cm"):
         deco = "@contextlib.contextmanager\n" if st == "cm" else ""
         return (deco + "def node_{k}({sig}):\n    tok = h_enter({k}, {cx})\n    h_fail({k}, tok, 'early')\n"
@@ -964,9 +1033,9 @@ def node_src(k, n):
                 "    except BaseException as ex:\n        saw = ex\n" + tail).format(k=k, sig=sig, cx=cx, sw=swallow, post="", cxo=cxo)
     if st in ("agen", "acm"):
         deco = "@contextlib.asynccontextmanager\n" if st == "acm" else ""
-        post = "    if not isinstance(saw, GeneratorExit):\n        await h_pause()\n"
+        post = "    if not isinstance(saw, GeneratorExit):\n        await h_pause(True)\n"
         return (deco + "async def node_{k}({sig}):\n    tok = h_enter({k}, {cx})\n    h_fail({k}, tok, 'early')\n"
-                "    await h_pause()\n    h_fail({k}, tok, 'late')\n"
+                "    await h_pause_open({k}, tok)\n    h_fail({k}, tok, 'late')\n"
                 "    saw = None\n    h_ready({k}, tok)\n    try:\n        yield h_val({k}, tok)\n"
                 "    except BaseException as ex:\n        saw = ex\n" + tail).format(k=k, sig=sig, cx=cx, sw=swallow, post=post, cxo=cxo)
     raise ValueError(st)
@@ -1194,7 +1263,7 @@ def _run_case(case):
     ns = mod.__dict__
     ns.update(TaskiqMessage=TaskiqMessage, AsyncBroker=AsyncBroker, h_view=h_view, h_prov=h_prov, h_pick=h_pick)
     ns.update(UserCfg=UserCfg, Context=Context, TaskiqDepends=TaskiqDepends, contextlib=contextlib, h_enter=h_enter, h_fail=h_fail,
-              h_pause=h_pause, h_ready=h_ready, h_close=h_close, h_closed=h_closed, h_val=h_val, h_body=h_body,
+              h_pause=h_pause, h_pause_open=h_pause_open, h_ready=h_ready, h_close=h_close, h_closed=h_closed, h_val=h_val, h_body=h_body,
               h_body_sync=h_body_sync, h_inner=h_inner, h_outer=h_outer, not_async_aware=not_async_aware,
               async_aware=async_aware, functools=functools)
     ns.update({"ANN_" + k: a for k, a in ANNS.items()})
@@ -1250,6 +1319,22 @@ def _run_case(case):
         receiver = None                     # whatever receiver run_receiver_task has built when a delivery is served
         live = cli_glue.FlakyFeed(path["run"].get("drops"))
         broker.listen = live.listen
+    elif kind == "listen":
+        # deps11: a worker that stops while executions are in flight (see main_listen)
+        receiver = None
+        stop_cfg = dict(path.get("stop") or {})
+        live = ending_feed(len(case["msgs"]) if stop_cfg.get("how") == "exhausted" else None)
+        broker.listen = live.listen
+        if path.get("argv") is not None:
+            import cli_glue
+            listen_kw = cli_glue.receiver_kwargs_via_cli(list(path["argv"]), InMemoryBroker())
+        else:
+            listen_kw = dict(validate_params=validate, propagate_exceptions=bool(case.get("propagate", True)),
+                             ack_type=ACK[ack], **(path.get("kwargs") or {}))
+        listen_kw.setdefault("run_startup", False)
+        budget = listen_kw.get("max_tasks_to_execute")
+        if budget and budget < len(case["msgs"]):
+            raise RuntimeError("harness: ill-formed case, max_tasks_to_execute %r < %d deliveries" % (budget, len(case["msgs"])))
     elif kind in ("cli", "api"):
         # the keyword arguments of the Receiver as the real command line / the real run_receiver_task compute them
         # (on a throw-away broker, before the virtual-time loop exists)
@@ -1463,7 +1548,78 @@ def _run_case(case):
             raise RuntimeError("run_receiver_task does not end when it is cancelled")
         await asyncio.gather(worker, return_exceptions=True)
 
+    # ---- deps11 ------------------------------------------------------------------------------------------------------
+    stop_info = {}
+
+    async def main_listen(loop):
+        """Receiver.listen() for real; the worker stops (budget / exhausted listen() / finish event) while executions are
+        in flight, waits wait_tasks_timeout for them, returns - and the loop runs on until everything has settled"""
+        n = len(case["msgs"])
+        how = stop_cfg.get("how", "event")
+        finish_event = asyncio.Event()
+        pool = vloop.VPool(loop, max_workers=int(path.get("pool") or 2))
+        stop_info.update(how=how, pool=pool, fallback=False, mark=None, at_us=None)
+
+        def on_exit(rec):
+            # called by Receiver.listen() right after its task group (prefetcher + runner) has ended
+            stop_info["mark"] = len(R.log)
+            stop_info["at_us"] = loop.time_us()
+
+        for i in range(n):
+            finished[i] = loop.create_future()
+        rec = LiveReceiver(broker=broker, executor=pool, on_exit=on_exit, **listen_kw)
+        stop_info.update(wait_tasks_timeout=rec.wait_tasks_timeout, budget=rec.max_tasks_to_execute)
+        listener = asyncio.create_task(rec.listen(finish_event))
+
+        async def stopper():
+            while len(executed_by) < n:
+                await asyncio.sleep(0.0005)
+            await asyncio.sleep(int(stop_cfg.get("after") or 0) / 1_000_000)
+            stop_info["event_set_us"] = loop.time_us()
+            finish_event.set()
+
+        stopping = asyncio.create_task(stopper()) if how == "event" else None
+        runners = asyncio.gather(*[asyncio.create_task(runner(i, m)) for i, m in enumerate(case["msgs"])])
+        # the executions go on whether or not listen() has returned
+        await asyncio.wait({runners}, timeout=900)
+        if not runners.done():
+            state = "is still listening" if not listener.done() else "has returned"
+            for f in finished.values():
+                if not f.done():
+                    f.set_result(None)
+            await asyncio.gather(runners, return_exceptions=True)
+            listener.cancel()
+            await asyncio.gather(listener, return_exceptions=True)
+            raise RuntimeError("deliveries %s handed to listen() were never executed to the end; listen() %s"
+                               % ([i for i in range(n) if i not in executed_by], state))
+        runners.result()
+        # ... and so does whatever is still in the thread pool
+        for _ in range(2_000_000):
+            if not (pool.queued or pool.running or pool.parked or pool.delivering):
+                break
+            await asyncio.sleep(0.001)
+        else:
+            raise RuntimeError("the thread pool of the worker never became idle")
+        await asyncio.sleep(1.0)
+        if stopping is not None:
+            await stopping
+        if not listener.done():
+            # the stop the case asked for did not come about (e.g. a budget larger than the number of deliveries after a
+            # reduction): the finish event ends the worker now, nothing is in flight any more
+            stop_info["fallback"] = True
+            finish_event.set()
+            await asyncio.wait({listener}, timeout=30)
+        if not listener.done():
+            listener.cancel()
+            await asyncio.gather(listener, return_exceptions=True)
+            raise RuntimeError("Receiver.listen() does not return after the finish event was set")
+        if listener.cancelled() or listener.exception() is not None:
+            raise RuntimeError("Receiver.listen() ended with %r" % ("cancelled" if listener.cancelled() else listener.exception(),))
+    # ---- end deps11 --------------------------------------------------------------------------------------------------
+
     async def main(loop):
+        if kind == "listen":
+            return await main_listen(loop)
         if kind == "inmemory":
             for op in path.get("life") or []:
                 await {"startup": broker.startup, "shutdown": broker.shutdown}[op]()
@@ -1497,7 +1653,7 @@ def _run_case(case):
         if kind == "inmemory":
             await broker.wait_all()
 
-    loop = Loop(0)
+    loop = PoolLoop(0) if kind == "listen" else Loop(0)
     asyncio.set_event_loop(loop)
     R.loop = loop
     try:
@@ -1515,12 +1671,21 @@ def _run_case(case):
     finally:
         try:
             broker.executor.shutdown(wait=True)
+            if stop_info.get("pool") is not None:
+                stop_info["pool"].shutdown(wait=True)
         except BaseException:  # noqa: B902
             pass
         asyncio.set_event_loop(None)
         loop.close()
     out = {"log": log, "trees": trees, "late": late}
-    if live is not None:
+    if kind == "listen":
+        # deps11: how the worker stopped
+        out["stop"] = {"how": stop_info.get("how"), "mark": stop_info.get("mark"), "at_us": stop_info.get("at_us"),
+                       "event_set_us": stop_info.get("event_set_us"), "fallback": bool(stop_info.get("fallback")),
+                       "wait_tasks_timeout": stop_info.get("wait_tasks_timeout"), "budget": stop_info.get("budget"),
+                       "receiver_kwargs": built[0] if built else None,
+                       "served": sorted(live.served)}
+    elif live is not None:
         n = len(case["msgs"])
         out["live"] = {"listens": live.listens, "faults": live.faults, "receivers": built,
                        "served_by_listen": [live.served.get(i) for i in range(n)],
